@@ -101,6 +101,14 @@ fn inmem<IntT: for<'a> UInt<'a>>(k: usize, rc: bool, list: &str, op: &[String]) 
             arr.weed(&r, b(&op[2]));
             print_nk(&arr);
         }
+        // emptied FASTA OUT: keep only the k-mers of FASTA (which match nothing), save the emptied
+        // table as OUT and print it
+        "emptied" => {
+            let r = RefSka::<IntT>::new(arr.kmer_len(), &op[1], arr.rc(), false, false);
+            arr.weed(&r, true);
+            arr.save(&op[2]).expect("save emptied");
+            print_nk(&arr);
+        }
         // delete NAME..
         "delete" => {
             let names: Vec<&str> = op[1..].iter().map(|s| s.as_str()).collect();
